@@ -3,6 +3,7 @@ package main
 import (
 	"crypto/tls"
 	"fmt"
+	"io"
 
 	"github.com/hashicorp/go-hclog"
 	"net"
@@ -21,14 +22,14 @@ func init() {
 		ID: "C11", Level: "exploration", Primary: "states", EvalCount: "stops",
 		Rule: "liveness restated as bounded progress: Stop must return within B=10s (an order of magnitude above what a correct implementation needs) WITHOUT any client action, and Run must then return nil. " +
 			"One evaluation = a fresh server brought into a connection state (none; 1/8/64 idle; half a frame sent; TLS listener with no / partial ClientHello; StartTLS-upgraded idle; StartTLS answered but handshake never started; busy pipelining; clients not reading " +
-			"large responses so that handlers block in Write (60KB frames that block in the write, 300-byte frames from two handlers that block in the flush, and a server configured with a 10-minute write timeout) - alone and combined ON THE SAME CONNECTION with an Unbind, a half-close, a pending StartTLS handshake or half a frame; all of them together) x optional concurrent second Stop, then Stop is called; plus Stop racing Run's start-up with no client at all (Run parked at its own log statements through the user-supplied logger, and random microsecond offsets), a connection with a history of 150 recovered handler panics, idle connections left over by a PRNG-chosen history of 4..20 connections coming and going, 33/40/100 idle connections, and clients that keep connecting (and then sit idle) while Stop runs on a server with a 10-minute read timeout. If B expires the harness dumps goroutines and lets the clients go: a Stop goroutine parked (in any wait state) " +
+			"large responses so that handlers block in Write (60KB frames that block in the write, 300-byte frames from two handlers that block in the flush, a server configured with a 10-minute write timeout, and a client that keeps reading an endless response at a steady moderate pace) - alone and combined ON THE SAME CONNECTION with an Unbind, a half-close, a pending StartTLS handshake or half a frame; all of them together) x optional concurrent second Stop, then Stop is called; plus Stop racing Run's start-up with no client at all (Run parked at its own log statements through the user-supplied logger, and random microsecond offsets), a connection with a history of 150 recovered handler panics, idle connections left over by a PRNG-chosen history of 4..20 connections coming and going, 33/40/100 idle connections, and clients that keep connecting (and then sit idle) while Stop runs on a server with a 10-minute read timeout. If B expires the harness dumps goroutines and lets the clients go: a Stop goroutine parked (in any wait state) " +
 			"with a gldap connection goroutine parked in network I/O, released only when the clients close, is a violation; so is a Stop that is parked while every handler still running sits inside gldap's own ResponseWriter.Write; and so is a Stop call whose goroutine is found parked at the same place in a second dump taken 30s after every client closed its socket while no handler is running (e.g. one of two concurrent Stop calls that is never woken); anything else is inconclusive. " +
 			"distinct_nontrivial = distinct (state, #connections, second-Stop) triples with at least one connection open at Stop time",
 		Assume: []string{"handlers that block in application code (not in gldap's Write) are outside the statement: the workload's handlers only ever block inside ResponseWriter.Write"},
 		Phases: func(tier string, seed int64) []Phase {
 			return []Phase{{Name: "stop-states", Run: c11Run, Timeout: 40 * time.Minute}}
 		},
-		MinObserved: []string{"stops", "stops_with_open_connections", "stops_with_handlers_blocked_in_write", "stops_racing_run_startup", "stops_after_connection_churn", "stops_with_clients_connecting_meanwhile", "stops_of_servers_logging_at_debug_level"},
+		MinObserved: []string{"stops", "stops_with_open_connections", "stops_with_handlers_blocked_in_write", "stops_racing_run_startup", "stops_after_connection_churn", "stops_with_clients_connecting_meanwhile", "stops_of_servers_logging_at_debug_level", "stops_while_a_client_steadily_reads_an_endless_response"},
 	})
 }
 
@@ -148,7 +149,7 @@ func c11Run(c *Ctx) {
 		c11Startup(c, pki, "", i%2 == 0, i, c.Rng.Sub(fmt.Sprintf("su%d", i)))
 	}
 	states := []string{"none", "idle", "half-frame", "tls-no-hello", "tls-partial-hello", "starttls-idle", "starttls-pending", "busy-pipelining", "not-reading",
-		"not-reading+unbind", "not-reading+half-close", "not-reading+starttls-pending", "not-reading+half-frame", "not-reading+long-write-timeout", "not-reading+small-frames-two-handlers", "after-panic-storm", "mixed"}
+		"not-reading+unbind", "not-reading+half-close", "not-reading+starttls-pending", "not-reading+half-frame", "not-reading+long-write-timeout", "not-reading+small-frames-two-handlers", "steady-reader", "after-panic-storm", "mixed"}
 	counts := []int{1, 8}
 	reps := 1
 	if !c.Quick() {
@@ -190,6 +191,7 @@ func c11Run(c *Ctx) {
 func c11One(c *Ctx, pki *PKI, st c11State) {
 	var blockedWrites atomic.Int64
 	var inHandlers atomic.Int64
+	var streamed atomic.Int64
 	useTLS := strings.HasPrefix(st.Name, "tls-")
 	var stc *tls.Config
 	if useTLS {
@@ -229,6 +231,17 @@ func c11One(c *Ctx, pki *PKI, st c11State) {
 					if err != nil {
 						return
 					}
+				}
+			}
+			if s.BaseDN == "endless" {
+				// a response that goes on for as long as the client takes it
+				for {
+					e := r.NewSearchResponseEntry("cn=e")
+					e.AddAttribute("b", []string{blob})
+					if w.Write(e) != nil {
+						return
+					}
+					streamed.Add(1)
 				}
 			}
 			if s.BaseDN == "big" {
@@ -314,6 +327,24 @@ func c11One(c *Ctx, pki *PKI, st c11State) {
 					}
 				}
 			}()
+		case "steady-reader":
+			// the client keeps reading an endless response at a steady, moderate pace (a small receive buffer, 64 KiB
+			// every 5ms): it never stalls and never catches up
+			cn.(*net.TCPConn).SetReadBuffer(32 << 10)
+			cn.Write(search(1, "endless"))
+			cwg.Add(1)
+			go func() {
+				defer cwg.Done()
+				buf := make([]byte, 64<<10)
+				for !stopClients.Load() {
+					if _, err := io.ReadFull(cn, buf); err != nil {
+						return
+					}
+					time.Sleep(5 * time.Millisecond)
+				}
+			}()
+			for dl := time.Now().Add(patience); streamed.Load() < 20 && time.Now().Before(dl); time.Sleep(time.Millisecond) {
+			}
 		case "not-reading", "not-reading+long-write-timeout":
 			cn.Write(search(1, "big"))
 		case "not-reading+small-frames-two-handlers":
@@ -467,6 +498,9 @@ wait:
 	}
 	if blocked > 0 {
 		c.Count("stops_with_handlers_blocked_in_write", 1)
+	}
+	if st.Name == "steady-reader" && streamed.Load() >= 20 {
+		c.Count("stops_while_a_client_steadily_reads_an_endless_response", 1)
 	}
 	if !late {
 		lat := time.Since(t0)
